@@ -963,10 +963,12 @@ fn run_history(
                 next[PASSIVE].name()
             ));
         }
-        if do_judge && res.findings.is_empty() {
+        if do_judge {
+            // every step is judged on the states observed before it, so a finding
+            // at one step does not disturb the judgement of the following ones
             let before = res.findings.len();
             judge(cfg, mode, prev, next, r, sym, &seen, &cause, t, &mut res.findings);
-            if res.findings.len() > before {
+            if res.findings.len() > before && before == 0 {
                 res.at = i;
             }
             judged += 1;
@@ -1272,7 +1274,7 @@ fn probe_late_apply_disconnect(rep: &mut Report) {
     let cfg = Cfg::new(0x0200_0001, 0x0100_0003, 90, 30); // local id higher: the passive connection loses
     let mut drv = Drv::new(&cfg, Mode::Arbiter);
     let mut trace: Vec<String> = Vec::new();
-    let mut step = |drv: &mut Drv, r: usize, sym: Sym, note: &str, trace: &mut Vec<String>| {
+    let step = |drv: &mut Drv, r: usize, sym: Sym, note: &str, trace: &mut Vec<String>| {
         let mut rendered = Vec::new();
         let seen = drv.feed(&cfg, r, sym, 0, Some(&mut rendered));
         trace.push(format!(
